@@ -104,3 +104,20 @@ claim("C19", "TLC trace validation against an exact half-space intersection comp
       "thorough, energies within a factor two) are validated by TLC: vertex set equality, all inequalities, >= 3 facets per vertex, exact facet lists, outward closed mesh "
       "(raw triangles merged by position and to_trimesh), edge set, exact and float volume, and scaling by a rational factor.",
       "Vertices are projected to the exact rational vertex set (residual bound 1e-8); needle-like shapes beyond 32 units and vertices closer than 1e-4 are out of domain (guards evaluated by TLC).")
+
+claim("C15", "TLC model checking of the CIF parser state machine + trace validation of the real serialiser/parser on its own bytes",
+      "Cif.tla holds a typed data model, the serialiser as operators and the line-dispatch parser as a state machine over byte lines (one action per kind of line, "
+      "quote-aware tokeniser, ParseValue with uncertainty stripping); as-built deviations are named and used only by --explain. MC_Cif exhaustively checks "
+      "Parse(Ser(d)) = d with the parser actions taken step by step for all small data sets (<= 2 blocks, <= 3 items, <= 3 cells, a 10-value alphabet incl. negative "
+      "ints, integer-valued decimals, uncertainty forms, strings with blanks/commas/quotes/double blanks): 616k states quick, ~15M thorough. Seeded random dictionaries, "
+      "the repository's CIF files and parse_value forms go through the real Cif(d).to_string()/Cif.from_string; TLC checks block names, item names, row alignment, value "
+      "types and values against the original, then runs the spec's own parser on the written bytes and demands agreement with the library's parser.",
+      "Domain guard evaluated by TLC (empty blocks/strings, strings needing nested quotes, number-like strings are out of domain as the statement says); floats shipped as exact digit sequences, loop-cell floats compared to 5e-13 + 1e-15|x|.")
+
+claim("C10", "TLC trace validation of file content and reloaded crystals for all 530 settings x 3 formats + MC of the LATT/SYMM round trip",
+      "CrystalFile.tla states what each format must carry: a .res text denotes a space group through SHELX semantics (SpaceGroup!Expand of LATT + SYMM, each SYMM text "
+      "certified as Symop!ToText of its operation), CELL to 6 decimals, SFAC/atom lines; a POSCAR holds every unit-cell atom (Crystal orbit) of a P1 crystal with the same "
+      "Gram matrix; a reloaded CIF/.res crystal has the same IT number, operation set, cell parameters (written precision), labels, elements, grid coordinates and (CIF) "
+      "occupancies. Every tabulated setting is exercised in all three formats in both tiers, through the string functions and save()/load() on real files, with crystals "
+      "built in memory or themselves loaded from CIF/.res. MC_SpaceGroup (shared with C02) establishes the reduce/expand round trip on the exported table.",
+      "Coordinates projected to the grid (residual <= 1e-8); cells compared at 1e-6 (2e-6 for .res); occupancy is not demanded for .res (the dialect chmpy writes has no such column); the reference is the crystal actually written.")
